@@ -48,7 +48,7 @@ Print Assumptions eq_refl.
 
 Theorem eq_refl_refuted :
   exists s, keys_distinct s = true /\ wf s = true /\ schema_eqb s s = false.
-Proof. exists (SFloat (Some fnan) None None None). vm_compute. auto. Qed.
+Proof. exact eq_refl_refuted_lemma. Qed.
 Print Assumptions eq_refl_refuted.
 
 (* the same object compared with itself is at least as equal (identity shortcut of
@@ -85,16 +85,13 @@ Theorem discriminated_unequal :
 Proof. exact discriminated_unequal_lemma. Qed.
 Print Assumptions discriminated_unequal.
 
-(* schema.list([schema.any]) == schema.list([...]) although only the second accepts [] *)
-Definition ex_list_any : schema := SList (Some [Some (SAny None)]) None None None None.
-Definition ex_list_ell : schema := SList (Some [None]) None None None None.
-Definition ex_list_alias : schema :=
-  SList (Some [Some (SAlias (Some [120%N]) (SAny None))]) None None None None.
+(* schema.list([schema.any]) == schema.list([...]) although only the second accepts []
+   (witnesses ex_list_any, ex_list_ell, ex_list_alias are defined in proofs/SchemaEqSpec.v) *)
 
 Theorem eq_same_verdicts_refuted :
   exists s1 s2 v, wf s1 = true /\ wf s2 = true /\ no_nan_params s1 = true /\ no_nan_params s2 = true /\
                   schema_eqb s1 s2 = true /\ verdict s1 v = false /\ verdict s2 v = true.
-Proof. exists ex_list_any, ex_list_ell, (VList []). vm_compute. auto 10. Qed.
+Proof. exact eq_same_verdicts_refuted_lemma. Qed.
 Print Assumptions eq_same_verdicts_refuted.
 
 (* ---- transitive under the same hypothesis; without it: [any] == [...] == [alias x any],
@@ -109,7 +106,7 @@ Print Assumptions eq_trans.
 Theorem eq_trans_refuted :
   exists s1 s2 s3, wf s1 = true /\ wf s2 = true /\ wf s3 = true /\
                    schema_eqb s1 s2 = true /\ schema_eqb s2 s3 = true /\ schema_eqb s1 s3 = false.
-Proof. exists ex_list_any, ex_list_ell, ex_list_alias. vm_compute. auto 10. Qed.
+Proof. exact eq_trans_refuted_lemma. Qed.
 Print Assumptions eq_trans_refuted.
 
 (* ================= non-vacuity ================= *)
@@ -172,4 +169,17 @@ Example ex_nan_in_list :
   schema_eqb_self (SList (Some [Some (SFloat (Some fnan) None None None)]) None None None None) = true /\
   schema_eqb (SList (Some [Some (SFloat (Some fnan) None None None)]) None None None None)
              (SList (Some [Some (SFloat (Some fnan) None None None)]) None None None None) = false.
+Proof. vm_compute. auto. Qed.
+
+(* the two side hypotheses are not decoration: a key table that repeats a key (no Python
+   dict does) is not equal to itself in the model, and two pattern entries with the same
+   text but different trees (re's parser never produces that) are equal with different verdicts *)
+Example ex_needs_keys_distinct :
+  let s := SDict (Some [(KStr [97], Some (SInt None None None), false); (KStr [97], Some SNone, false)]) in
+  no_nan_params s = true /\ keys_distinct s = false /\ schema_eqb s s = false.
+Proof. vm_compute. auto. Qed.
+Example ex_needs_parse :
+  let s1 := SStr None None None None None None (Some ([97], [RLit 97])) in
+  let s2 := SStr None None None None None None (Some ([97], [RLit 98])) in
+  schema_eqb s1 s2 = true /\ verdict s1 (VStr [97]) = true /\ verdict s2 (VStr [97]) = false.
 Proof. vm_compute. auto. Qed.
